@@ -853,6 +853,8 @@ def drive(world, tier):
                 p = 0.4
             if focus == "C19" and opt in ("bankid", "brokerid", "url", "user"):
                 p = 0.5
+            if focus == "C18" and opt == "clientuid":
+                p = 0.35        # the one option with a generated default and a [DEFAULT]-section life of its own
             if ch.flag("cli." + opt, p):
                 cli[opt] = True if opt in BOOLS else world.draw_value(opt, "cli")
         if n == 0 and "url" not in cli and ch.flag("cli.url.first", 0.7):
